@@ -58,6 +58,9 @@ type Thread struct {
 	BlockedAt  int32 // set at the end of the run if still blocked
 }
 
+// LastSite returns the site of the last hook the thread passed.
+func (th *Thread) LastSite() int32 { return th.site }
+
 // Done reports whether the thread has exited.
 func (th *Thread) Done() bool { return th.state.Load() == stExited }
 
@@ -75,10 +78,11 @@ type Event struct {
 
 // Config bounds a run.
 type Config struct {
-	Horizon  time.Duration // virtual horizon of the whole run
-	MaxSteps int           // cap on scheduler decisions
-	Trace    bool          // keep a decision trace
-	NoStall  bool          // never inject stalls
+	Horizon   time.Duration // virtual horizon of the whole run
+	MaxSteps  int           // cap on scheduler decisions
+	MaxYields int64         // cap on statement-level yields (a livelock in the code under test)
+	Trace     bool          // keep a decision trace
+	NoStall   bool          // never inject stalls
 }
 
 // Result is what a run leaves behind.
@@ -120,6 +124,7 @@ type Sim struct {
 	faults   map[string]int
 	pools    map[*sync.Pool]*simPool
 	fair     bool
+	overrun  bool
 	last     *Thread
 
 	// strategy (drawn from the tape at start)
@@ -149,6 +154,9 @@ func Run(t *testing.T, cfg Config, tape *Tape, main func(s *Sim)) (res *Result) 
 	}
 	if cfg.MaxSteps == 0 {
 		cfg.MaxSteps = 200000
+	}
+	if cfg.MaxYields == 0 {
+		cfg.MaxYields = 30000000
 	}
 	s := &Sim{cfg: cfg, tape: tape, pairs: map[[2]int32]int{},
 		faults: map[string]int{}, pools: map[*sync.Pool]*simPool{}, hash: 1469598103934665603, sig: 1469598103934665603,
@@ -241,6 +249,10 @@ func (s *Sim) loop(main func(*Sim), res *Result) {
 		synctest.Wait()
 		s.observe()
 		if mainTh.Done() {
+			break
+		}
+		if s.overrun {
+			res.Reason = "maxyields"
 			break
 		}
 		if s.steps >= s.cfg.MaxSteps {
@@ -511,6 +523,12 @@ func (s *Sim) yield(site int32) {
 	th := s.running
 	th.site = site
 	s.yields++
+	if s.yields > s.cfg.MaxYields {
+		// the code under test spins: stop the run (reason "maxyields")
+		s.overrun = true
+		th.opSite = site
+		s.park(th)
+	}
 	th.budget--
 	if th.budget > 0 && !(s.hotMod != 0 && s.isHot(site) && th.budget%2 == 0) {
 		return
